@@ -9,7 +9,7 @@ from sx import Sym
 
 RULE = ("seeded call sequences (length<=10) on Data3D, ForceTorque3D (add_track, tracks = …) and EMG (addSignal): tracks of the "
         "block's length and of other lengths, instances of a user subclass of the track class (accepted like any track), non-track objects (None, str, ndarray, int, a track of another block kind) at every "
-        "position of assigned lists, generators that raise midway, one-shot iterables that do not (generator, iter, map, filter, reversed), non-iterables; after half of the list assignments the caller appends a wrong-length track to / deletes from ITS list; observed after each call: identity of the tracks "
+        "position of assigned lists, generators that raise midway, one-shot iterables that do not (generator, iter, map, filter, reversed), the block's OWN track list / lazy views of it assigned back, non-iterables; after half of the list assignments the caller appends a wrong-length track to / deletes from ITS list; observed after each call: identity of the tracks "
         "held (block.tracks / iteration) and raised?; non-trivial = sequence with >=1 refused call after >=1 accepted; distinct by calls")
 ASSUMPTIONS = ["'refused' = raises; the exception class is not part of the property"]
 
@@ -109,6 +109,26 @@ def run(ctx):
                 elif mode < 0.27:
                     values = rng.choice([None, 5])
                     offered, boom = [], 0
+                elif mode < 0.36 and list(blk):
+                    # the block's OWN tracks come back: its list object itself, a lazy view of it, a filtered generator over the
+                    # block - whatever the setter does to the old container, it must have read the new value first
+                    cur = list(blk)
+                    how = rng.choice(["self-list", "self-reversed", "self-generator", "self-iter-block", "self-plus-one"])
+                    if how == "self-list":
+                        offered, values = [(o, [Sym("t"), ids[id(o)], n]) for o in cur], blk.tracks
+                    elif how == "self-reversed":
+                        offered, values = [(o, [Sym("t"), ids[id(o)], n]) for o in cur[::-1]], reversed(blk.tracks)
+                    elif how == "self-generator":
+                        keep = [o for k, o in enumerate(cur) if k % 2 == 0]
+                        offered, values = [(o, [Sym("t"), ids[id(o)], n]) for o in keep], (o for k, o in enumerate(blk.tracks) if k % 2 == 0)
+                    elif how == "self-iter-block":
+                        offered, values = [(o, [Sym("t"), ids[id(o)], n]) for o in cur], iter(blk)
+                    else:
+                        extra = gen_offered(kind, n, rng, ids)
+                        offered = [(o, [Sym("t"), ids[id(o)], n]) for o in cur] + [extra]
+                        values = (o for o in list(blk.tracks) + [extra[0]])
+                    objs = [o for o, _ in offered]
+                    oneshot = how
                 elif mode < 0.45:
                     # one-shot iterables that do NOT raise: a generator, iter(list), map, filter, reversed (the latter yields the
                     # elements last to first): the setter must install exactly what the iterable yields, once
